@@ -3,10 +3,14 @@
    LockFile / ParallelMailboxLock objects must be a behaviour of LockFile: the outcome of every
    step (created / opened, lock obtained or not, the byte read, the counters handed out) and
    the bytes of the lock file after every step are bound from the observation.
-   One TLC run validates all traces of one assignment of terminals (Bytes).                 *)
+   One TLC run validates all traces of one layout (ProcOf, Bytes).                 *)
 EXTENDS LockFile, Json, IOUtils, TLCExt
-BytesSame == [p \in Procs |-> 0]
-BytesMixed == [p \in Procs |-> IF p = "p1" THEN 0 ELSE 1]
+(* layouts (see LockFileScripts): users u1, u2 (, u3) in processes P, Q *)
+ProcTwo == [u \in Users |-> IF u = "u1" THEN "P" ELSE "Q"]
+BytesSame == [u \in Users |-> 0]
+BytesMixed == [u \in Users |-> IF u = "u1" THEN 0 ELSE 1]
+ProcMulti == [u \in Users |-> IF u = "u3" THEN "Q" ELSE "P"]     \* P holds two terminals' locks
+BytesMulti == [u \in Users |-> IF u = "u2" THEN 1 ELSE 0]
 Traces == JsonDeserialize(IOEnv.TRACE_FILE)
 VARIABLES tid, l
 tvars == <<lvars, tid, l>>
@@ -16,20 +20,21 @@ T == Traces[tid]
 TInit == /\ tid \in 1 .. Len(Traces) /\ l = 1
          /\ exists = (Len(T.pre) > 0) /\ phys = T.pre
          /\ owner = [b \in 0 .. N - 1 |-> None]
-         /\ pc = [p \in Procs |-> "start"]
-         /\ ctr = [p \in Procs |-> 0]
+         /\ ppc = [q \in Procs |-> "start"]
+         /\ pc = [u \in Users |-> "idle"]
+         /\ ctr = [u \in Users |-> 0]
          /\ last = [b \in 0 .. N - 1 |-> None]
 
 Step(e) ==
     \/ e.a = "open" /\ e.exc = "" /\ e.res = "created" /\ Create(e.p)
     \/ e.a = "open" /\ e.exc = "" /\ e.res = "opened" /\ OpenExisting(e.p)
     \/ e.a = "init" /\ e.exc = "" /\ WriteInit(e.p)
-    \/ e.a = "try" /\ e.exc = "" /\ TryLockf(e.p, e.ok)
+    \/ e.a = "try" /\ e.exc = "" /\ TryLockf(e.u, e.ok)
     \/ /\ e.a = "read" /\ e.exc = ""                  \* the participant obtains a counter: the
-       /\ ReadByte(e.p, e.counter)                     \* logical one, 0 while the byte is missing
-    \/ e.a = "next" /\ e.exc = "" /\ Next(e.p, e.value)
-    \/ e.a = "write" /\ e.exc = "" /\ WriteByte(e.p)
-    \/ e.a = "unlock" /\ e.exc = "" /\ Unlockf(e.p)
+       /\ ReadByte(e.u, e.counter)                     \* logical one, 0 while the byte is missing
+    \/ e.a = "next" /\ e.exc = "" /\ Next(e.u, e.value)
+    \/ e.a = "write" /\ e.exc = "" /\ WriteByte(e.u)
+    \/ e.a = "unlock" /\ e.exc = "" /\ Unlockf(e.u)
 
 TNext == /\ l <= Len(T.ev)
          /\ l' = l + 1 /\ UNCHANGED tid
